@@ -330,20 +330,23 @@ def _elem_script_type(self):
     return self.inputs.elem.fields['script_type'].v if not isinstance(self.inputs, list) else (self.inputs[0].script_type if self.inputs else 'sig_pubkey')
 
 
-def _raw_head(self, sign_id):
-    return self.version[::-1] + wire.compact_size(len(self.inputs))
+def _raw_head(self, sign_id, witness_type):
+    # marker and flag (BIP144) only in the whole-transaction form of a segwit transaction
+    return self.version[::-1] + (b'\x00\x01' if sign_id is None and witness_type == 'segwit' else b'') + wire.compact_size(len(self.inputs))
 
 
 @loop('bitcoinlib.transactions.Transaction.raw', 0,
-      defines={'r': lambda self, sign_id, k: _raw_head(self, sign_id) + _raw_in_fold(self, sign_id, k)})
+      defines={'r': lambda self, sign_id, witness_type, k: _raw_head(self, sign_id, witness_type) + _raw_in_fold(self, sign_id, k),
+               'r_witness': lambda self, k: fold(wire.tx_wit_step, b'', self.inputs, k, key='tx-wit')})
 def raw_inputs_inv(self, k):
-    """after k inputs r is the version, the input count and the serialisation of the first k inputs"""
+    """after k inputs r is the version, (marker, flag,) the input count and the serialisation of the first k inputs; r_witness the witness
+    fields of the first k inputs"""
     return 0 <= k and k <= len(self.inputs)
 
 
 @loop('bitcoinlib.transactions.Transaction.raw', 1,
-      defines={'r': lambda self, sign_id, k: (_raw_head(self, sign_id) + _raw_in_fold(self, sign_id, len(self.inputs))
-                                             + wire.compact_size(len(self.outputs)) + fold(sighash.out_step(wire.ser_string), b'', self.outputs, k, key='tx-out'))})
+      defines={'r': lambda self, sign_id, witness_type, k: (_raw_head(self, sign_id, witness_type) + _raw_in_fold(self, sign_id, len(self.inputs))
+                                                           + wire.compact_size(len(self.outputs)) + fold(sighash.out_step(wire.ser_string), b'', self.outputs, k, key='tx-out'))})
 def raw_outputs_inv(self, k):
     return 0 <= k and k <= len(self.outputs)
 
@@ -439,6 +442,45 @@ class raw_full_any_count:
         from pyvc.fuzz import sample as _s
         tx = _s(_TxAnyCountFull, rng)
         tx.fields['inputs'] = [_s(_InElemFull, rng) for _ in range(rng.choice([0, 1, 2, 3, 5, 9]))]
+        tx.fields['outputs'] = [_s(_OutElem, rng) for _ in range(rng.choice([0, 1, 2, 3, 7]))]
+        return {'self': tx}
+
+
+_InElemWit = RecordOf(Input, prev_txid=Bytes(32), output_n=Bytes(4), sequence=Int(0, 2 ** 32 - 1), value=Int(0, MAX_MONEY),
+                      script_type=Const('sig_pubkey'), witness_type=Const('segwit'), redeemscript=Bytes(max=10000),
+                      locking_script=Bytes(max=10000), witnesses=FixedList(Bytes(max=520, ne=b'\x00'), 2), unlocking_script=Bytes(max=10000, ne=b'\x00'), index_n=Position())
+_TxAnyCountWit = RecordOf(Transaction, version=Bytes(4), version_int=Int(0, 2 ** 32 - 1), locktime=Int(0, 2 ** 32 - 1), witness_type=Const('segwit'), size=Const(1),
+                          inputs=ListOf(_InElemWit), outputs=ListOf(_OutElem))
+
+
+@contract('bitcoinlib.transactions.Transaction.raw', case='full-segwit-any-count', props=('C06',))
+class raw_full_segwit_any_count:
+    """Transaction.raw() of a segwit transaction with ANY number of inputs and outputs is the BIP144 wire format: version, marker 00, flag 01,
+    input count, inputs (outpoint, var_str unlocking script - empty for native segwit, the redeem-script push for P2SH-wrapped -, sequence),
+    output count, outputs, then for every input its witness field (item count and var_str items; two items per input here, as in P2WPKH),
+    lock time.  Loop invariants for both accumulators (r and r_witness), no unrolling.  Preconditions: no script or witness item is the single
+    byte 00 (pinned finding F-varstr-00, covered with its pin by the per-count cases); the cached size is already set."""
+    params = {'self': _TxAnyCountWit}
+    kwargs = {'sign_id': None, 'hash_type': 1, 'witness_type': None}
+
+    def requires(self):
+        return len(self.inputs) < 2 ** 32 and len(self.outputs) < 2 ** 32
+
+    def result_is(self):
+        return wire.ser_tx_segwit_rec(int.from_bytes(self.version, 'big'), self.inputs, self.outputs, self.locktime)
+
+    def prepare(self):
+        t = _real_tx(self)
+        for k, x in enumerate(self.fields['inputs']):
+            t.inputs[k].unlocking_script = x.fields['unlocking_script']
+            t.inputs[k].witnesses = list(x.fields['witnesses'])
+        t.size = 1
+        return {'self': t}
+
+    def sample(rng):
+        from pyvc.fuzz import sample as _s
+        tx = _s(_TxAnyCountWit, rng)
+        tx.fields['inputs'] = [_s(_InElemWit, rng) for _ in range(rng.choice([0, 1, 2, 3, 5, 9]))]
         tx.fields['outputs'] = [_s(_OutElem, rng) for _ in range(rng.choice([0, 1, 2, 3, 7]))]
         return {'self': tx}
 
@@ -654,7 +696,7 @@ INSTALLERS.append(_install_verify)
 
 def _tx_verify_case(n):
     name = '%dinputs' % n
-    InV = RecordOf(Input, index_n=Int(0, 100), hash_type=Int(1, 255), witness_type=Const('segwit'), ghost_id=Int(0, 10 ** 6))
+    InV = RecordOf(Input, index_n=Int(0, 100), hash_type=Int(1, 255), witness_type=Const('segwit'), ghost_id=Int(0, 10 ** 6), valid=Bool)   # valid: whatever an earlier verify() left behind
     TxT = RecordOf(Transaction, inputs=FixedList(InV, n), verified=Const(None), ghost_tx=Const(True))
 
     def ensures(self, result):
@@ -677,7 +719,7 @@ TX_VERIFY_CASES = [_tx_verify_case(n)._contract.key for n in (1, 2, 3)]
 
 
 # any number of inputs: loop invariant "every input before k verified under its own digest"
-_InVElem = RecordOf(Input, index_n=Position(), hash_type=Int(1, 255), witness_type=Const('segwit'), ghost_id=Int(0, 10 ** 6))
+_InVElem = RecordOf(Input, index_n=Position(), hash_type=Int(1, 255), witness_type=Const('segwit'), ghost_id=Int(0, 10 ** 6), valid=Bool)   # valid: whatever an earlier verify() left behind
 
 
 @loop('bitcoinlib.transactions.Transaction.verify', 0, modifies=('self.verified',), havoc_types={'self.verified': Bool})
